@@ -790,6 +790,7 @@ var c08Grammar = []string{
 	"stateProtoLF -> stateHeaderKeyBefore",
 	"stateStatus -> stateStatusLF",
 	"stateStatusBefore -> stateStatus",
+	"stateStatusBefore -> stateStatusLF",
 	"stateStatusCode -> stateStatusBefore",
 	"stateStatusCodeBefore -> stateStatusCode",
 	"stateStatusLF -> stateHeaderKeyBefore",
